@@ -281,6 +281,10 @@ fn direct_checks(reg: &PortableRegistry, spec: &SettingsSpec, out: &GenOut) -> R
                 }
             }
             for (g, r) in live.iter().zip(rf.iter()) {
+                // a field typed by a generic parameter carries no marker: the Compact is in the argument
+                if item.generics.iter().any(|p| tokens_nospace(&g.ty) == *p) {
+                    continue;
+                }
                 let rc = is_compact_type(reg, r.ty.id);
                 if spec.codec && rc != g.compact {
                     return Err(format!("{at}: registry field compact={rc} but #[codec(compact)] present={}", g.compact));
